@@ -318,9 +318,19 @@ def history(rng, tier):
             sl = '$al%d' % (len(w.lines))
             w.emit('getlinkh %s %s %s idof %s' % (sl, rel, holder.slot, v.slot) if rel != 'meta' else 'getlinkh %s meta %s idx 0' % (sl, holder.slot))
             aliases.append(sl)
+        survivors = []
         if v.kind == 'A':
             for t in w.alive(['T', 'M'], block=v.block)[:3]: alias('ref', t)
             for g in w.alive('G', block=v.block)[:2]: alias('mA', g)
+        # handles of entities that SURVIVE, fetched through the victim (its sources, its metadata — for an array also through a tag
+        # that refers to it): the route goes with the victim, the entities stay, their handles stay valid
+        if v.kind in ('A', 'D', 'T', 'M', 'G'):
+            for via in [v.slot] + aliases[:2]:
+                for k in range(2):
+                    sl = '$sv%d' % len(w.lines)
+                    w.emit('getlinkh %s src %s idx %d' % (sl, via, k)); survivors.append(sl)
+                sl = '$sv%d' % len(w.lines)
+                w.emit('getlinkh %s meta %s idx 0' % (sl, via)); survivors.append(sl)
         elif v.kind in ('T', 'M', 'D'):
             for g in w.alive('G', block=v.block)[:2]: alias(REL_OF[v.kind], g)
         elif v.kind == 'O':
@@ -332,6 +342,11 @@ def history(rng, tier):
             nxt = [e for e in w.ents if e.alive and e.parent in frontier]
             below += nxt
             frontier = [e.slot for e in nxt]
+        # the id looked up through the parent before the delete (whatever the parent remembers about it must not outlive the entity)
+        reborn = v.kind in ('A', 'D', 'T', 'G', 'O', 'S') and v.kind != 'B' and rng.random() < 0.5
+        if reborn:
+            for _ in range(3): w.emit('has %s %s idof %s' % (v.kind, v.parent, v.slot))
+            w.emit('get $pre %s %s idof %s' % (v.kind, v.parent, v.slot))
         w.emit('dump')
         how = rng.choice(['name', 'handle', 'idof'])
         if how == 'idof':
@@ -341,8 +356,26 @@ def history(rng, tier):
             w.delete(v, how)
         w.emit('dump')
         w.emit('valid %s deleted' % v.slot)
+        if reborn:
+            # an entity of the same kind and NAME is created in its place: the old id finds nothing, deletes nothing, links nothing
+            par = next((e for e in w.ents if e.slot == v.parent and e.alive), None)
+            if par is not None or v.parent == '$F':
+                nw = w.mk(v.kind, par, name=v.name)
+                for _ in range(2): w.emit('has %s %s idof %s' % (v.kind, v.parent, v.slot))
+                w.emit('get $post %s %s idof %s' % (v.kind, v.parent, v.slot))
+                w.emit('has %s %s name %s' % (v.kind, v.parent, S(v.name)))
+                w.emit('xcheck %s %s' % (v.kind, v.parent))
+                w.emit('valid %s deleted' % v.slot)
+                if v.kind == 'A':
+                    for t in w.alive(['T', 'M'], block=v.block)[:2]: w.emit('link ref %s idof %s' % (t.slot, v.slot))
+                w.emit('dump')
+                w.emit('del %s %s idof %s' % (v.kind, v.parent, v.slot))
+                w.emit('dump')
+                if nw is not None and nw.alive: w.emit('valid %s' % nw.slot)
         for sl in aliases:
             w.emit('valid %s deleted' % sl)
+        for sl in survivors:
+            w.emit('valid %s alive' % sl)
         for e in below[:12]:
             w.emit('valid %s deleted' % e.slot)
         if v.kind == 'A':
